@@ -36,6 +36,8 @@ class Run(object):
         self.errors = []
         self.installed = None
         self._factory = None
+        self.grammar = True      # the client frames of this execution are judged by Trace_Session (off: a scenario in which
+        #                          the *user* deliberately writes packets of the wrong state)
 
     def ev(self, k, **kw):
         e = {'k': k}
@@ -87,6 +89,9 @@ class Run(object):
             inst.net.listen(HOST, PORT, self._accept)
             out = self.sched.run(lambda: scenario(self))
         self.outcome = out
+        if self.grammar:
+            from . import core as _core
+            _core.SESSION_LOG.extend(session_frames(self))
         if self.sched.error and 'watchdog' in str(self.sched.error):
             # the real-time watchdog is there to end a hung harness, never to judge the library: executions are bounded
             # by the (deterministic) step budget.  An overloaded host must not turn into a verdict.
@@ -132,6 +137,24 @@ class Run(object):
         return c
 
 
+def session_frames(run):
+    """One record per TCP connection of the execution: the client's frames as the independent peer decoded them."""
+    out = []
+    for sc in run.scripts:
+        if not isinstance(sc, TracingScript):
+            continue
+        frs = []
+        for p in sc.parsed:
+            fr = p['_frame']
+            ok = p['t'] not in ('other', 'undecodable') and 'trailing' not in p
+            if p['t'] == 'other' and p.get('_st') == 'play':
+                ok = fr['id'] in getattr(sc.prof, 'sb_play_ids', ())      # a serverbound play packet this check does not look into
+            frs.append({'st': p.get('_st', '?'), 't': p['t'], 'enc': bool(fr['enc']), 'env': fr['thr'] is not None, 'ok': bool(ok),
+                        'nxt': p.get('next', 0) if p['t'] == 'handshake' else 0})
+        out.append({'fr': frs, 'derr': len(sc.de.errors), 'v': getattr(sc.prof, 'version', 0)})
+    return out
+
+
 class TracingScript(peer.Script):
     """peer.Script that records what it sends (kind, key) and what the client sent
     (parsed with the profile) into run.trace."""
@@ -154,6 +177,7 @@ class TracingScript(peer.Script):
             self._seen += 1
             p = self.prof.parse(self.state, fr)
             p['_frame'] = fr
+            p['_st'] = self.state
             self.parsed.append(p)
             if p['t'] == 'handshake':
                 self.state = 'login' if p['next'] == 2 else 'status'
